@@ -177,7 +177,8 @@ def fmt_norm(k):
 
 def key_line(k, g=None):
     if k is None:
-        return "#EXT-X-KEY:METHOD=NONE"
+        # the tag is recognised from its attribute list: white space and unknown attributes are presentation only
+        return "#EXT-X-KEY:" + render_attrs([("METHOD", "NONE")], g)
     attrs = [("METHOD", k["method"]), ("URI", '"%s"' % k["uri"])]
     if k["iv"] is not None:
         attrs.append(("IV", "0x" + k["iv"].hex()))
